@@ -39,6 +39,7 @@ structure Case where
   runid : String
   rdb : Nat
   steps : List Step
+  big : Bool := false            -- `tagl`: the command stream with two large values
 
 def parseStep (s : String) : Option Step :=
   match s.toList with
@@ -68,6 +69,8 @@ def parseCase (f : List String) : Option Case :=
     let st ← ((steps.splitOn ",").mapM expand).map List.flatten
     if kind == "inc" || kind == "cont" || kind == "full" || kind == "tags" then
       pure { kind := kind, inOff := inOff, ann := ann, runid := rid, rdb := rdb, steps := st }
+    else if kind == "tagl" then
+      pure { kind := "tags", inOff := inOff, ann := ann, runid := rid, rdb := rdb, steps := st, big := true }
     else none
   | _ => none
 
@@ -93,10 +96,16 @@ def cmds : List String :=
    "*1\r\n$4\r\nping\r\n",
    "*4\r\n$4\r\nhset\r\n$1\r\nh\r\n$2\r\nf1\r\n$10\r\n0123456789\r\n"]
 
-def cmdLens : List Nat := cmds.map (·.utf8ByteSize)
+/-- `*3 $3 set $3 big $<n> <n bytes>`: 4+9+9+1+digits+2+n+2 bytes -/
+def bigLen (n : Nat) : Nat := 4 + 9 + 9 + 1 + (toString n).length + 2 + n + 2
+
+/-- lengths of the commands of one cycle; `tagl` mirrors `c08CmdsL` (values of 70001 and 1048601 bytes) -/
+def cmdLensOf (big : Bool) : List Nat :=
+  let l := cmds.map (·.utf8ByteSize)
+  if big then [l.getD 0 0, bigLen 70001, l.getD 1 0, l.getD 2 0, bigLen 1048601, l.getD 3 0] else l
 
 /-- positions (1-based byte counts) at which a command ends among the first n stream bytes -/
-def cmdEnds (n : Nat) : List Nat :=
+def cmdEnds (cmdLens : List Nat) (n : Nat) : List Nat :=
   let L := cmdLens.foldl (· + ·) 0
   if L == 0 then [] else
     let one : List Nat := (cmdLens.foldl (fun (acc : List Nat × Nat) l => (acc.1 ++ [acc.2 + l], acc.2 + l)) ([], 0)).1
@@ -107,7 +116,7 @@ def cmdEnds (n : Nat) : List Nat :=
 def tagsOf (c : Case) (s : St) : String :=
   if c.kind != "tags" then "-"
   else
-    let ts := (cmdEnds s.pipe.length).map fun pos => toString (tag s pos)
+    let ts := (cmdEnds (cmdLensOf c.big) s.pipe.length).map fun pos => toString (tag s pos)
     if ts.isEmpty then "none" else ",".intercalate ts
 
 def tail (c : Case) (s : St) : String :=
